@@ -218,32 +218,83 @@ make_period('A', True, 'date', True, True, both_symbolic=True)
 
 
 @cond('C13.order', quick=300,
-      bounds='skeleton A; OPEN ON d CLOSE ON e CLEAR with symbolic dates: the result equals applying open, then close, then clear '
-             '(beancount.ops.summarize) to the unfiltered entries, with and without a filter expression, for #postings and #entries',
-      symbolic='the CLOSE date (OPEN ON 2019-01-05)', enumerated='filter, table', params={**DATE.params('e'), 'expr': bool, 'ent': bool})
-def order(expr, ent, **kw):
+      bounds='skeletons A and B; OPEN ON d CLOSE ON e CLEAR with d from 5 dates (before the ledger, on entry dates, between entries - '
+             'for skeleton B after its currency conversion -, after the ledger) and e symbolic: the returned rows (date, account, '
+             'position / date, type) equal applying open, then close, then clear (beancount.ops.summarize) to the unfiltered '
+             'entries, with and without a filter expression, for #postings and #entries',
+      symbolic='the CLOSE date', enumerated='skeleton, OPEN date, filter, table',
+      params={**DATE.params('e'), 'expr': bool, 'ent': bool, 'skb': bool, 'dsel': int})
+def order(expr, ent, skb, dsel, **kw):
     from beancount.ops import summarize
-    entries, _, options = ledger.load(SKELETON_A)
-    d, e = datetime.date(2019, 1, 5), _window_date('e', kw)
+    entries, _, options = ledger.load(SKELETON_B if skb else SKELETON_A)
+    d, e = datetime.date(*pick(OPEN_DATES, dsel)), _window_date('e', kw)
     assume(d <= e)
     step, _ = summarize.open_opt(entries, d, options)
     step, _ = summarize.close_opt(step, e, options)
     step, _ = summarize.clear_opt(step, None, options)
     clause = ast.From(ast.Greater(col('year'), const(2000)) if expr else None, d, e, True)
-    table = 'entries' if ent else 'postings'
     conn = _conn(entries, options)
-    conn.tables['postings' if not ent else 'entries']  # noqa: B018
-    stmt = sel([target(col('date')), target(col('type' if ent else 'account'))], from_clause=clause)
     if ent:
+        stmt = sel([target(col('date')), target(col('type'))], from_clause=clause)
         conn.tables['postings'] = conn.tables['entries']
+    else:
+        stmt = sel([target(col('date')), target(col('account')), target(col('position'))], from_clause=clause)
     _, rows = beanquery.query_execute.execute_query(conn.compile(stmt))
     if ent:
         want = [(x.date, type(x).__name__.lower()) for x in step]
     else:
-        want = [(t.date, p.account) for t in step if isinstance(t, data.Transaction) for p in t.postings]
+        want = [(t.date, p.account, position.Position(p.units, p.cost))
+                for t in step if isinstance(t, data.Transaction) for p in t.postings]
     if [tuple(r) for r in rows] != want:
         return 'clauses-not-applied-in-order-open-close-clear'
     return 'ok'
+
+
+CLOSE_FORMS = [None, True] + OPEN_DATES
+
+
+@cond('C13.print', quick=300,
+      bounds='skeletons A and B; PRINT FROM [filter] [OPEN ON d] [CLOSE [ON e]] [CLEAR] for every clause subset, d and e from 5 dates '
+             'each (d <= e): the printed entries are those obtained by applying open, then close, then clear to the ledger '
+             '(rendered by the same beancount printer)',
+      symbolic='(none)', enumerated='skeleton, OPEN presence / date, CLOSE form / date, CLEAR, filter',
+      params={'skb': bool, 'i': int, 'j': int, 'clear': bool, 'expr': bool},
+      note='solver-enumerated and executed natively: rendering entries under the solver is out of reach (R5)')
+def print_clauses(skb, i, j, clear, expr):
+    i = enum_int(i, 0, len(OPEN_DATES))
+    j = enum_int(j, 0, len(CLOSE_FORMS) - 1)
+    skb, clear, expr = bool(skb), bool(clear), bool(expr)
+
+    def run():
+        import io
+        from beancount.core import display_context
+        from beancount.ops import summarize
+        from beancount.parser import printer
+        entries, _, options = ledger.load(SKELETON_B if skb else SKELETON_A)
+        d = datetime.date(*OPEN_DATES[i]) if i < len(OPEN_DATES) else None
+        close = CLOSE_FORMS[j]
+        e = datetime.date(*close) if isinstance(close, tuple) else close
+        if d is not None and isinstance(e, datetime.date) and e < d:
+            return None
+        step = entries
+        if d is not None:
+            step, _ = summarize.open_opt(step, d, options)
+        if e is not None:
+            step, _ = summarize.close_opt(step, e if isinstance(e, datetime.date) else None, options)
+        if clear:
+            step, _ = summarize.clear_opt(step, None, options)
+        clause = ast.From(ast.Greater(col('year'), const(2000)) if expr else None, d, e, True if clear else None)
+        conn = _conn(entries, options)
+        out = io.StringIO()
+        beanquery.query_execute.execute_print(conn.compile(ast.Print(clause)), out)
+        dcontext = display_context.DisplayContext()
+        dcontext.set_commas(options['dcontext'].commas)
+        want = io.StringIO()
+        printer.print_entries(step, dcontext, file=want)
+        return out.getvalue() == want.getvalue()
+    verdict = native(run)
+    assume(verdict is not None)
+    return 'ok' if verdict else 'printed-entries-differ-from-open-close-clear'
 
 
 @cond('C13.history', quick=300,
